@@ -13,14 +13,46 @@ use std::time::Duration;
 pub struct C11 {
     /// identities seen Down and not yet forgotten
     down: BTreeSet<Id>,
+    /// identities whose Down record was removed by their forget-timer
+    forgotten: BTreeSet<Id>,
 }
 
 impl C11 {
     /// `epoch`: token of the active epoch before the call (None while not active),
     /// as inferred from notifications and scheduled timers by the C13 shadow.
-    pub fn on(&mut self, rec: &CallRec, epoch: Option<u8>, codec: CodecKind, acc: &mut Acc) -> Verdict {
+    pub fn on(&mut self, rec: &CallRec, pres: &crate::mon::presented::Presented, epoch: Option<u8>, codec: CodecKind, acc: &mut Acc) -> Verdict {
         if rec.res.is_panic() {
             return Ok(());
+        }
+        // after its record was forgotten an identity may rejoin: the first processed update presenting it as
+        // active, while nothing is recorded for its address, must bring it back
+        {
+            use crate::mon::presented::Presented as P;
+            let ups: Vec<&Member<Id>> = match pres {
+                P::Apply { updates, .. } => updates.iter().collect(),
+                P::Data { view, processed: true } => view.members.iter().collect(),
+                _ => vec![],
+            };
+            let hdr_addr = match pres {
+                P::Data { view, .. } => Some(view.header.src.addr),
+                _ => None,
+            };
+            if matches!(rec.res, Res::Ok) {
+                if let Some(u) = ups.first() {
+                    if self.forgotten.contains(u.id()) && hdr_addr != Some(u.id().addr) && u.state() != State::Down && u.id().addr != rec.pre.id.addr && rec.pre.rec_for_addr(u.id().addr).is_none() && ups.iter().filter(|x| x.id().addr == u.id().addr).count() == 1 {
+                        let post = rec.post.rec_for_addr(u.id().addr);
+                        ensure!(
+                            post.is_some_and(|m| m.id() == u.id() && m.state() != State::Down),
+                            "C11/forgotten-identity-cannot-rejoin",
+                            "{:?} was forgotten by its forget-timer, then presented as {:?}, but the record is {post:?}",
+                            u.id(),
+                            u.state()
+                        );
+                        self.forgotten.remove(u.id());
+                        acc.tally("rejoins_after_forget", 1);
+                    }
+                }
+            }
         }
         if let Op::Timer(Timer::ChangeSuspectToDown { member_id: m, incarnation: i, token }) = &rec.op {
             let cur = rec.pre.rec_for_addr(m.addr);
@@ -97,6 +129,7 @@ impl C11 {
                 None => {
                     ensure!(removed == Some(id), "C11/down-vanished", "Down record {id:?} disappeared without its forget-timer (op {})", rec.op.name());
                     self.down.remove(&id);
+                    self.forgotten.insert(id);
                     acc.tally("down_records_forgotten", 1);
                 }
             }
@@ -105,6 +138,8 @@ impl C11 {
             if m.state() == State::Down {
                 self.down.insert(*m.id());
             }
+            // known again (by whatever route): no longer "forgotten"
+            self.forgotten.remove(m.id());
         }
         // a forget-timer removes exactly its identity, and only when Down
         if let Some(id) = removed {
